@@ -128,6 +128,27 @@ def v_prevref(t, name):
     return t[:e] + '[PrevSoln] = "%s"%s' % (name, _nl(t)) + t[e:]
 
 
+def v_nocircuits(t):
+    """the same magnetics problem without circuit properties (FSolver::LoadProblemFile returns early for NumCircProps == 0)"""
+    m = re.search(r"^\[CircuitProps\][ \t]*=[ \t]*(\d+)[ \t]*\r?\n", t, re.M | re.I)
+    if not m:
+        raise RuntimeError("no [CircuitProps] line")
+    pos = m.end()
+    for _ in range(int(m.group(1))):
+        e = re.compile(r"<EndCircuit>[ \t]*\r?\n", re.I).search(t, pos)
+        pos = e.end()
+    t = t[:m.start()] + "[CircuitProps]  = 0" + _nl(t) + t[pos:]
+    sct = _section(t, "NumBlockLabels")
+    lines = []
+    for l in sct[3]:
+        f = l.rstrip("\r\n").split("\t")
+        if len(f) < 9:
+            f = l.split()
+        f[4] = "0"
+        lines.append("\t".join(f) + _nl(t))
+    return set_section(t, "NumBlockLabels", lines)
+
+
 def has_holes(t):
     h = _section(t, "NumHoles")
     return bool(h and h[2] > 0)
@@ -174,6 +195,8 @@ class Fix:
             "h:Temp1": ("Heat", "Temp1", rd(os.path.join(src, "hsolver/test/Temp1.feh")).decode("latin1")),
         }
         self.problem["m:Temp2prev"] = ("Mag", "Temp2", v_prevref(self.problem["m:Temp1"][2], "Temp1.ans"))
+        # the same without circuit properties, with (stale) mesh files beside it, as after running the mesher first
+        self.problem["m:Temp3prevnc"] = ("Mag", "Temp3", v_nocircuits(v_prevref(self.problem["m:Temp1"][2], "Temp1.ans")))
         self.mesh, self.sol = {}, {}
         self.errors = []
 
@@ -207,7 +230,7 @@ class Fix:
 
     def periodic(self, sc):
         """does the problem of a scenario have (anti)periodic boundaries?  (.pbc written by fmesher lists pairs)"""
-        sc = {"m:Temp2prev": "m:Temp1"}.get(sc, sc)
+        sc = {"m:Temp2prev": "m:Temp1", "m:Temp3prevnc": "m:Temp1"}.get(sc, sc)
         m = self.mesh.get(sc)
         try:
             return int(m[".pbc"].split()[0]) > 0
@@ -228,6 +251,7 @@ class Fix:
             self.sol[sc] = self.solve(sc, {})
         self.sol["h:Temp1"] = self.solve("h:Temp1", {"Temp0.anh": self.sol.get("h:Temp0")})
         self.mesh["m:Temp2prev"] = None
+        self.mesh["m:Temp3prevnc"] = self.do_mesh(self.problem["m:Temp3prevnc"][2], "Temp3", ".fem")
         return not self.errors
 
     def solve(self, sc, extra):
@@ -301,19 +325,25 @@ def make_rows(fx, have_uid, thorough):
         add(role="Output", fault="unwritable", **common)
 
     # ---------------------------------------------------------------- solvers ----
-    for sc in ("m:Temp1", "m:Temp-premeshed", "m:Temp2prev", "e:test", "h:Temp0", "h:Temp1"):
+    for sc in ("m:Temp1", "m:Temp-premeshed", "m:Temp2prev", "m:Temp3prevnc", "e:test", "h:Temp0", "h:Temp1"):
         ph, base, text = fx.problem[sc]
         P = PH[ph]
-        prevref = sc in ("m:Temp2prev", "h:Temp1")
+        prevref = sc in ("m:Temp2prev", "m:Temp3prevnc", "h:Temp1")
         files = {base + P["ext"]: text.encode("latin1")}
-        mesh_needed = sc != "m:Temp2prev"
+        mesh_needed = sc not in ("m:Temp2prev", "m:Temp3prevnc")
+        if sc == "m:Temp3prevnc":
+            # mesh files are present but not needed (the mesh comes with the previous solution): not fault roles
+            if not fx.mesh.get(sc):
+                continue
+            for _, e in MESH:
+                files[base + e] = fx.mesh[sc][e]
         if mesh_needed:
             if not fx.mesh.get(sc):
                 continue
             for _, e in MESH:
                 files[base + e] = fx.mesh[sc][e]
         prev_name = None
-        if sc == "m:Temp2prev":
+        if sc in ("m:Temp2prev", "m:Temp3prevnc"):
             prev_name, prev = "Temp1.ans", fx.sol.get("m:Temp1")
         if sc == "h:Temp1":
             prev_name, prev = "Temp0.anh", fx.sol.get("h:Temp0")
@@ -338,7 +368,7 @@ def make_rows(fx, have_uid, thorough):
                 for j in range(i + 1, len(froles)):
                     add(role=[froles[i][0], froles[j][0]], fault="absent", files=files,
                         fault_files=[froles[i][1], froles[j][1]], **common)
-        if sc == "m:Temp-premeshed":
+        if sc in ("m:Temp-premeshed", "m:Temp3prevnc"):
             continue            # content variants need a mesh of the edited problem: done on the fmesher-meshed scenarios
         # content faults: the problem file is edited, meshed by the real fmesher (prerequisite), then solved
         nm_text, nm_how = v_nomaterial(text)
@@ -375,14 +405,14 @@ def make_rows(fx, have_uid, thorough):
         for fault in ("absent", "unreadable"):
             add(role="Problem", fault=fault, files=files, fault_files=[pf], **common)
 
-    for sc in ("m:Temp1", "m:Temp2prev", "e:test", "h:Temp0", "h:Temp1"):
+    for sc in ("m:Temp1", "m:Temp2prev", "m:Temp3prevnc", "e:test", "h:Temp0", "h:Temp1"):
         ph, base, text = fx.problem[sc]
         P = PH[ph]
         pf = base + P["ext"]
-        prevref = sc in ("m:Temp2prev", "h:Temp1")
+        prevref = sc in ("m:Temp2prev", "m:Temp3prevnc", "h:Temp1")
         files = {pf: text.encode("latin1")}
         prev_name = None
-        if sc == "m:Temp2prev":
+        if sc in ("m:Temp2prev", "m:Temp3prevnc"):
             prev_name, prev = "Temp1.ans", fx.sol.get("m:Temp1")
         if sc == "h:Temp1":
             prev_name, prev = "Temp0.anh", fx.sol.get("h:Temp0")
